@@ -97,6 +97,7 @@ def run(ctx):
     wm = model(ctx)
     ctx.decided("chunk/command record layouts and endianness; all magics (W1/W5)")
     ctx.decided("<< 7 block units on the four block fields, the wipe length and the empty-block header (SHIFT)")
+    ctx.decided("the patch block reader consumes deflated and raw blocks up to their 128-byte aligned end (BLOCK)")
     ctx.decided("required effect kinds per opcode; no mutating effect in the no-op opcodes (EFFECTS)")
     ctx.decided("target platform comes from the last TargetInfo; file-name arguments are the command's own ids (PLATFORM)")
     ctx.decided("seek/write/wipe operands derive from the command's own fields; conditional seek/truncate placement (PROV)")
@@ -153,6 +154,52 @@ def run(ctx):
                 d = derive(ix, t["args"][1])
                 seq.append("count-1" if (3 in d.params and 1 in d.consts and ("Sub" in d.ops or any(x.endswith("checked_sub") for x in d.calls))) else ("size" if 7 in d.consts and 1 in d.consts else "zero" if d.consts <= {0} and not d.params else "?"))
         ctx.ob("SHIFT", "empty-block|header-words", seq == ["size", "zero", "zero", "count-1", "zero"], f"empty block header words written: {seq}; reference [block size, 0, 0, block count - 1, 0]", eb.file, eb.line)
+
+    # ---- BLOCK: the patch block reader consumes each block up to its 128-byte aligned end
+    rbp = next((b_ for n_, b_ in prog.bodies.items() if n_.endswith("sqpack::read_data_block_patch")), None)
+    if not rbp:
+        ctx.fail_closed("BLOCK", "sqpack::read_data_block_patch not found")
+    else:
+        from ..sym import Explorer, N, is_const, show, walk
+
+        def fields_of(e):
+            return {t[2] for t in walk(e) if isinstance(t, tuple) and t[0] == "fld" and isinstance(t[2], str)}
+
+        def aligned(e, length_field):
+            """e == ((length + 143) & 0xFFFFFF80) with `length` the named header field."""
+            e = N(e)
+            if not (isinstance(e, tuple) and e[0] == "bin" and e[1] == "BitAnd"):
+                return False
+            sides = (e[2], e[3])
+            mask = [x for x in sides if is_const(x) and (x[1] & 0xFFFFFFFF) == 0xFFFFFF80]
+            add = [x for x in sides if isinstance(x, tuple) and x[0] == "bin" and x[1] == "Add"]
+            if not mask or not add:
+                return False
+            a = add[0]
+            k = [x for x in (a[2], a[3]) if is_const(x)]
+            other = [x for x in (a[2], a[3]) if not is_const(x)]
+            return bool(k) and k[0][1] == 143 and bool(other) and length_field in fields_of(other[0]) and not any(isinstance(t, tuple) and t[0] == "bin" for t in walk(other[0]))
+
+        comp_ok = raw_ok = None
+        for p in Explorer(rbp).explore():
+            sel = [d for d, c in p.conds if isinstance(d, tuple) and d[0] == "discr" and "compression" in fields_of(d)]
+            if not sel:
+                continue
+            for (_bb, callee, args, _res) in p.events:
+                last = callee.split("::")[-1]
+                if last == "from_elem" and len(args) == 2 and "compressed_length" in fields_of(args[1]) and "decompressed_length" not in fields_of(args[1]):
+                    e = N(args[1])
+                    ok = isinstance(e, tuple) and e[0] == "bin" and e[1] == "Sub" and aligned(e[2], "compressed_length") and fields_of(e[3]) >= {"size"} and not any(isinstance(t, tuple) and t[0] == "bin" for t in walk(e[3]))
+                    comp_ok = ok if comp_ok is None else (comp_ok and ok)
+                if last == "seek" and len(args) == 2 and "file_size" in fields_of(args[1]):
+                    cur = [t for t in walk(args[1]) if isinstance(t, tuple) and t[0] == "agg" and t[2].endswith("SeekFrom::Current")]
+                    if cur:
+                        e = N(cur[0][3][0])
+                        # (aligned(file_size) - size) - file_size
+                        ok = isinstance(e, tuple) and e[0] == "bin" and e[1] == "Sub" and "file_size" in fields_of(e[3]) and isinstance(e[2], tuple) and e[2][0] == "bin" and e[2][1] == "Sub" and aligned(e[2][2], "file_size") and "size" in fields_of(e[2][3])
+                        raw_ok = ok if raw_ok is None else (raw_ok and ok)
+        ctx.ob("BLOCK", "deflated-length", comp_ok is True, "a deflated block occupies ((compressed_length + 143) & 0xFFFFFF80) - header size bytes after its header (what the reader consumes)", rbp.file, rbp.line, sample=True)
+        ctx.ob("BLOCK", "raw-padding", raw_ok is True, "after a raw block the reader skips ((file_size + 143) & 0xFFFFFF80) - header size - file_size padding bytes", rbp.file, rbp.line)
 
     # ---- EFFECTS
     ab = prog.body("patch::ZiPatch::apply")
